@@ -126,6 +126,11 @@ func (n Name) byteCode(srcsel int, _ flags.Pass, cr compResult) bytecode.Type {
 }
 
 func (f Function) byteCode(srcsel int, fl flags.Pass, cr compResult) bytecode.Type {
+	// the function value keeps both counts in 16 bit fields, more would silently wrap
+	if len(f.Parameters.Elems) > value.MaxFunctionVars || f.LocalCnt > value.MaxFunctionVars {
+		panic(bytecode.ErrOperandRange)
+	}
+
 	jmpAddr := len(*cr.CS)
 	instr := bytecode.New(bytecode.JMP)
 	*cr.CS = append(*cr.CS, instr)
